@@ -23,7 +23,7 @@ VARIABLES phase, cs      \* cs = the case record
 vars == <<phase, cs>>
 
 Kinds == {"msg", "not", "req", "resp", "ses"}
-NodeForms == {"", "full", "ident", "name"}
+NodeForms == {"", "full", "ident", "name", "dom"}     \* "dom": no name part (@domain/instance)
 Methods == IF Tier = "thorough"
            THEN {"get", "set", "delete", "subscribe", "unsubscribe", "observe", "merge"}
            ELSE {"get", "set", "observe"}
@@ -51,7 +51,8 @@ D3(a, b, c) == Doc(<<a, b, c>>, 1)
 (* ---------------------------------------------------------------- C01 ---- *)
 Hdr(id, f, p, t, m) == [id |-> id, frm |-> f, pp |-> p, to |-> t, meta |-> m]
 AllHdrs == {Hdr(i, f, p, t, m) : i \in {"", "x"}, f \in NodeForms, p \in NodeForms, t \in NodeForms, m \in {"", "y"}}
-FewHdrs == {Hdr("x", "full", "", "ident", ""), Hdr("", "", "", "", ""), Hdr("x", "name", "full", "full", "y")}
+FewHdrs == {Hdr("x", "full", "", "ident", ""), Hdr("", "", "", "", ""), Hdr("x", "name", "full", "full", "y"),
+            Hdr("x", "dom", "dom", "dom", "")}
 
 B0 == [kind |-> "", doc |-> NoDoc, event |-> "", reason |-> "", method |-> "", uri |-> "", status |-> "",
        state |-> "", eopts |-> "", copts |-> "", sopts |-> "", enc |-> "", comp |-> "", auth |-> "", scheme |-> ""]
